@@ -395,6 +395,20 @@ def main():
             log('VIOLATION property=%s replay=%s%s' % (pid, path, tail))
         return 1
     if oc.undecided:
+        changed = any(i.get('changed_vs_pinned') for i in oc.parts)
+        if changed and any(('verus rejected' in u or 'proof-script mismatch' in u or 'resource limit' in u) for u in oc.undecided):
+            # the verifier could not decide the CHANGED tree: a concrete failing execution of the real code is still a
+            # sound alarm (DESIGN 2.5 cross-check); without one the verdict stays undecided
+            import replayer_run
+            found = replayer_run.search(pid, None, seed)
+            if found and found.get('failing_input'):
+                v = dict(build='replayer', key='replayer', kind='concrete-counterexample', module='-', function='-',
+                         message='verifier undecided on the changed tree; the replayer found an input violating the executable '
+                                 'mirror of the contract', site='; '.join(oc.undecided)[:300], site_tags=[], clause='', clause_tags=[],
+                         tree_changed=True)
+                path = write_replay(pid, v, 0, found)
+                log('VIOLATION property=%s replay=%s' % (pid, path))
+                return 1
         for u in oc.undecided:
             log('UNDECIDED property=%s %s' % (pid, u))
         return 2
